@@ -36,6 +36,9 @@ func selfTestSpaces() []space {
 		{alpha: spell, n: 1, depth: 2, dangOp: true, cfgs: [][2]string{{"none", "1.4"}, {"aes-128", "1.7-aes128"}, {"none", tgtRC4}}},
 		// hand-made direct values with Go nils inside
 		{alpha: lean, n: 1, depth: 2, directOp: true, cfgs: plainPair},
+		// references inside filter parameter dictionaries
+		{alpha: parmRefs, n: 1, depth: 2, dangOp: true, cfgs: [][2]string{{"none", "1.4"}, {"aes-128", "1.7-aes128"}, {"rc4-128", tgtRC4}}},
+		{alpha: parmRefs, n: 2, depth: 1, cfgs: plainPair},
 	}
 }
 
@@ -123,6 +126,13 @@ func selfTestOracle(rn *runner) error {
 			return fmt.Errorf("object syntax does not round trip: %q: %v", o.String(), err)
 		}
 	}
+	for _, o := range parmRefs.kinds(3) {
+		g := Graph{{K: 'i'}, {K: 'i'}, o}
+		g2, err := ParseGraph(g.String())
+		if err != nil || g2.String() != g.String() || g2[2].V != o.V {
+			return fmt.Errorf("graph syntax does not round trip: %q: %v", g.String(), err)
+		}
+	}
 	for _, p := range []string{"R0 C1 D2 Rx G0 G2", "", "V:<n1> V:[[N]] V:M R0 V:[<n>]"} {
 		prog, err := parseProg(p, 3)
 		if err != nil || progString(prog) != p {
@@ -197,6 +207,22 @@ func selfTestOracle(rn *runner) error {
 		{flawDropEntry, "i", "V:<ni>", "dict-entry-lost"},
 		{flawDeadRefKept, "[x]", "V:[0N]", "dead-reference-not-null"},
 		{flawIgnoreRedir, "i", "D0 V:<n0>", "redirect-not-honoured"},
+		// references inside filter parameter dictionaries ("Sr": FlateDecode, direct dictionary; "Sy": JBIG2Decode, direct
+		// dictionary; "Sv": Flate, indirect array; "SD": JBIG2, indirect array of indirect dictionary; "SE" / "Sx": second of two filters)
+		{flawParmRefKept, "<> Sy<0>", "R1", fpParmNotTranslated},
+		{flawParmRefKept, "i Sr<0>", "C1", fpParmNotTranslated},
+		{flawParmRefKept, "i SE<0>", "C1", fpParmNotTranslated},
+		{flawParmRefKept, "[21] <> SD<1>", "C0", fpParmNotTranslated},
+		{flawParmRefKept, "Sv<1> i", "D1 R0", fpParmNotTranslated},
+		{flawParmRefKept, "i Sv<0>", "R1 D0", fpParmNotTranslated},
+		{flawParmRefDup, "[12] Sv<2> <>", "R0", "sharing:object-copied-twice"},
+		{flawParmRefDup, "SD<11> S0<>", "R0", "sharing:object-copied-twice"},
+		{flawParmEntryLost, "Sy<1> S0<>", "R0", "decodeparms-entry-lost"},
+		{flawParmEntryLost, "Sx<0>", "C0", "decodeparms-entry-lost"},
+		{flawDeadRefKept, "St<x>", "R0", "dead-reference-not-null"},
+		{flawStreamBytes, "Sy<0>", "R0", "stream-bytes-differ:stream=parm-ref:JBIG2;name+dict"},
+		{flawStreamBytes, "Sx<x>", "C0", "stream-bytes-differ:stream=parm-ref:Flate;second-of-two-filters"},
+		{flawIgnoreRedir, "Sr<1> i", "D1 R0", "redirect-not-honoured"},
 	}
 	for _, p := range plants {
 		g, err := ParseGraph(p.graph)
